@@ -22,6 +22,7 @@ import (
 	"crypto"
 	"errors"
 	"fmt"
+	ssi "github.com/nuts-foundation/go-did"
 	"github.com/nuts-foundation/go-did/did"
 	"github.com/nuts-foundation/nuts-node/crypto/hash"
 	"strings"
@@ -81,15 +82,28 @@ func (r DIDKeyResolver) ResolveKeyByID(keyID string, metadata *ResolveMetadata, 
 	for _, rel := range relationships {
 		localKeyId := rel.ID.String()
 		if localKeyId == keyID {
-			return rel.PublicKey()
+			return publicKeyOf(rel.VerificationMethod)
 		} else if baseUrl != nil && strings.HasPrefix(localKeyId, "#") {
 			localKeyId = *baseUrl + localKeyId
 			if localKeyId == keyID {
-				return rel.PublicKey()
+				return publicKeyOf(rel.VerificationMethod)
 			}
 		}
 	}
 	return nil, ErrKeyNotFound
+}
+
+// publicKeyOf returns the public key of the verification method.
+// The DID library dereferences the publicKeyJwk of a JsonWebKey2020 method without checking its presence, which panics for a
+// (resolved, thus untrusted) DID document that lacks it.
+func publicKeyOf(method *did.VerificationMethod) (crypto.PublicKey, error) {
+	if method == nil {
+		return nil, errors.New("missing verification method")
+	}
+	if method.Type == ssi.JsonWebKey2020 && method.PublicKeyJwk == nil {
+		return nil, errors.New("verification method is missing publicKeyJwk")
+	}
+	return method.PublicKey()
 }
 
 // baseUrl returns the base URL of the given DID Document.
@@ -125,7 +139,7 @@ func (r DIDKeyResolver) ResolveKey(id did.DID, validAt *time.Time, relationType 
 	if len(keys) == 0 {
 		return "", nil, ErrKeyNotFound
 	}
-	publicKey, err := keys[0].PublicKey()
+	publicKey, err := publicKeyOf(keys[0].VerificationMethod)
 	if err != nil {
 		return "", nil, err
 	}
